@@ -138,7 +138,7 @@ def process {γ} (o : Opts) (load : Id → Option (List Node)) (hasData : Id →
     | .matched p =>
       match p.subtree with
       | some t => (st2, .newTree node (.matched t))
-      | none => (st1, .panicNoSubtree)
+      | none => (st2, .panicNoSubtree)   -- the real process has aborted; the state is immaterial
     | .notFound => (st2, .newTree node .notFound)
     | .notMatched => (st2, .newTree node .notMatched)
   | .endTree =>
@@ -198,7 +198,7 @@ def specProcess {γ} (o : Opts) (load : Id → Option (List Node)) (hasData : Id
     | .matched p =>
       match p.subtree with
       | some t => (st2, .newTree node (.matched t))
-      | none => (st, .panicNoSubtree)
+      | none => (st2, .panicNoSubtree)
     | .notFound => (st2, .newTree node .notFound)
     | .notMatched => (st2, .newTree node .notMatched)
   | .endTree =>
